@@ -310,24 +310,84 @@ def gen_program(rng, isa=None):
                         es.append(genexpr.gen_tree(rng, 2, "int"))
             items.append({"k": "data", "w": w, "es": es})
         elif c < 0.92:
-            items.append({"k": "res", "n": rng.choice([0, 1, 2, 3])})
+            items.append(dir_item(rng, "res", rng.choice([0, 1, 2, 3]), consts, labels))
         elif c < 0.96:
-            items.append({"k": "align", "n": rng.choice([8, 16, 32, 64])})
+            items.append(dir_item(rng, "align", rng.choice([8, 16, 32, 64]), consts, labels))
         else:
-            items.append({"k": "addr", "n": rng.choice([0x20, 0x40, 0x100])})
+            items.append(dir_item(rng, "addr", rng.choice([0x20, 0x40, 0x100]), consts, labels))
     for lab in pending:
         if rng.random() < 0.9:
             items.append({"k": "label", "lvl": 0, "name": lab})
     for k in consts:
         if k not in placed_consts and rng.random() < 0.9:
             items.append({"k": "const", "lvl": 0, "name": k, "e": const_expr(rng, labels, consts, k)})
+    # banks (about a third of the programs): definitions first, switches in between
+    banks = []
+    if rng.random() < 0.33:
+        nb = rng.randrange(1, 4)
+        outp = 0
+        for bi in range(nb):
+            unit = rng.choice([8, 8, 8, 16, 4])
+            size_units = rng.choice([8, 16, 32, 64])
+            has_outp = rng.random() < 0.9
+            banks.append({"unit": unit, "addr": rng.choice([0, 0, 0x10, 0x100, 0x8000]), "size": size_units * unit,
+                          "outp": outp if has_outp else -1, "fill": rng.random() < 0.3,
+                          "labelalign": (unit * 2) if rng.random() < 0.1 else 0})
+            if has_outp:
+                outp += size_units * unit + rng.choice([0, 0, 8, 32])
+        head = [{"k": "bankdef", "n": bi + 1} for bi in range(nb)]
+        if rng.random() < 0.08:
+            head = head[:-1] + [items.pop(0)] + head[-1:] if items else head     # something in the default bank: an error
+        body = []
+        for it in items:
+            if rng.random() < 0.12:
+                body.append({"k": "bank", "n": rng.randrange(1, nb + 1)})
+            body.append(it)
+        items = head + body
     # normalise: every item has every field (TLC records)
     out = []
     for it in items:
         base = {"k": it["k"], "lvl": 0, "name": "", "e": {"k": "none"}, "toks": [], "w": -1, "es": [], "n": 0}
         base.update(it)
         out.append(base)
-    return {"rules": isa["rules"], "items": out}
+    P = {"rules": isa["rules"], "items": out}
+    if banks:
+        P["banks"] = banks
+    return P
+
+
+def _num(v):
+    return {"k": "num", "text": list(str(v))}
+
+
+def dir_item(rng, kind, n, consts, labels):
+    """A #res / #align / #addr item: a plain literal, or (a third of the time) an
+    expression: arithmetic on literals, a constant, or a block guarded by assert()."""
+    it = {"k": kind, "n": n}
+    c = rng.random()
+    if c < 0.67:
+        return it
+    if c < 0.75:
+        a = rng.randrange(0, n + 1)
+        it["e"] = {"k": "bin", "op": "add", "l": _num(a), "r": _num(n - a)}
+    elif c < 0.83 and consts:
+        k = rng.choice(consts)
+        it["e"] = rng.choice([{"k": "var", "lvl": 0, "path": [k]},
+                              {"k": "bin", "op": "and", "l": {"k": "var", "lvl": 0, "path": [k]}, "r": _num(rng.choice([3, 15, 24]))}])
+    elif c < 0.97:
+        # assert(cond) ; n   -- the condition is usually true
+        a = rng.randrange(0, 6)
+        cond = rng.choice([
+            {"k": "bin", "op": "eq", "l": _num(a), "r": _num(a if rng.random() < 0.7 else a + 1)},
+            {"k": "bin", "op": "lt", "l": _num(a), "r": _num(a + rng.choice([1, 1, 0]))},
+            {"k": "bin", "op": rng.choice(["ge", "lt"]), "l": {"k": "var", "lvl": 0, "path": [rng.choice(consts)]}, "r": _num(rng.choice([0, 100, 1000]))}
+            if consts else {"k": "bool", "b": True}])
+        it["e"] = {"k": "block", "es": [{"k": "call", "f": "assert", "args": [cond]}, _num(n)]}
+    else:
+        # an assert() that is the whole argument (void if true, a failure if false)
+        it["e"] = {"k": "call", "f": "assert",
+                   "args": [{"k": "bin", "op": "eq", "l": _num(1), "r": _num(rng.choice([1, 2]))}]}
+    return it
 
 
 def const_expr(rng, labels, consts, me):
@@ -361,6 +421,10 @@ def render_pattern(pat):
     return "".join(out)
 
 
+def dir_arg(it):
+    return str(it["n"]) if it["e"]["k"] == "none" else genexpr.render(it["e"])
+
+
 def render_program(P, rule_order=None, case=None, instr_renderer=None):
     blocks = {}
     order = []
@@ -382,7 +446,19 @@ def render_program(P, rule_order=None, case=None, instr_renderer=None):
         out.append("}\n")
     for it in P["items"]:
         k = it["k"]
-        if k == "label":
+        if k == "bankdef":
+            b = P["banks"][it["n"] - 1]
+            f = ["#bits %d" % b["unit"], "#addr 0x%x" % b["addr"], "#size 0x%x" % (b["size"] // b["unit"])]
+            if b["outp"] >= 0:
+                f.append("#outp %d" % b["outp"])
+            if b["fill"]:
+                f.append("#fill")
+            if b["labelalign"]:
+                f.append("#labelalign %d" % b["labelalign"])
+            out.append("#bankdef bank%d\n{\n    %s\n}\n" % (it["n"], "\n    ".join(f)))
+        elif k == "bank":
+            out.append("#bank bank%d\n" % it["n"])
+        elif k == "label":
             out.append("%s%s:\n" % ("." * it["lvl"], it["name"]))
         elif k == "const":
             out.append("%s%s = %s\n" % ("." * it["lvl"], it["name"], genexpr.render(it["e"])))
@@ -391,11 +467,11 @@ def render_program(P, rule_order=None, case=None, instr_renderer=None):
         elif k == "data":
             out.append("    #d%s %s\n" % ("" if it["w"] < 0 else str(it["w"]), ", ".join(genexpr.render(e) for e in it["es"])))
         elif k == "res":
-            out.append("    #res %d\n" % it["n"])
+            out.append("    #res %s\n" % dir_arg(it))
         elif k == "align":
-            out.append("    #align %d\n" % it["n"])
+            out.append("    #align %s\n" % dir_arg(it))
         elif k == "addr":
-            out.append("    #addr %d\n" % it["n"])
+            out.append("    #addr %s\n" % dir_arg(it))
     return "".join(out)
 
 
@@ -710,6 +786,12 @@ def gen_cond_program(rng):
     """-> (abstract program with #if trees and `defines`, argv defines as strings)"""
     BOOLS, INTS = ["FLAG", "DEBUG"], ["X", "Y", "MODE"]
     marker = [1]
+    fns = []
+    if rng.random() < 0.3:
+        fns.append({"name": "fone", "params": [], "body": {"k": "num", "text": ["1"]}})
+        if rng.random() < 0.5:
+            fns.append({"name": "finc", "params": ["a"], "body": {"k": "bin", "op": "add", "l": {"k": "var", "lvl": 0, "path": ["a"]},
+                                                                  "r": {"k": "num", "text": ["1"]}}})
 
     def mark():
         marker[0] += 1
@@ -732,8 +814,12 @@ def gen_cond_program(rng):
             return {"k": "bin", "op": rng.choice(["eq", "lt"]), "l": {"k": "var", "lvl": 0, "path": [other]},
                     "r": {"k": "num", "text": list(str(rng.choice([0, 1, 2])))}}
         c = rng.random()
-        if c < 0.7:
+        if c < 0.6:
             return {"k": "num", "text": list(str(rng.choice([0, 1, 2, 5, 16])))}
+        if c < 0.72 and fns:
+            # a user function: beyond the pre-pass, so conditions on this constant stay undecided
+            f = rng.choice(fns)
+            return {"k": "call", "f": f["name"], "args": [{"k": "num", "text": list(str(rng.choice([0, 1, 15])))} for _ in f["params"]]}
         other = rng.choice([x for x in INTS if x != name])
         return {"k": "bin", "op": "add", "l": {"k": "var", "lvl": 0, "path": [other]}, "r": {"k": "num", "text": ["1"]}}
 
@@ -750,6 +836,8 @@ def gen_cond_program(rng):
             return {"k": "bin", "op": rng.choice(["land", "lor"]), "l": cond(depth + 1), "r": cond(depth + 1)}
         if c < 0.94:
             return {"k": "bool", "b": rng.random() < 0.5}
+        if c < 0.955 and fns:
+            return {"k": "bin", "op": "eq", "l": {"k": "call", "f": "fone", "args": []}, "r": {"k": "num", "text": ["1"]}}   # never decided
         if c < 0.97:
             return {"k": "var", "lvl": 0, "path": [rng.choice(INTS)]}     # not a boolean
         return {"k": "var", "lvl": 0, "path": ["somelabel"]}             # an address: cannot be decided
@@ -843,7 +931,14 @@ def gen_cond_program(rng):
             out.append(b)
         return out
 
-    return {"rules": [], "items": norm(items), "defines": defines}, argv
+    P = {"rules": [], "items": norm(items), "defines": defines}
+    if fns:
+        P["fns"] = fns
+    return P, argv
+
+
+def render_fns(P):
+    return "".join("#fn %s(%s) => %s\n" % (f["name"], ", ".join(f["params"]), genexpr.render(f["body"])) for f in P.get("fns", []))
 
 
 def render_items(items, indent=""):
